@@ -75,6 +75,8 @@ TargetEv0 ==
   \/ IsA("obs.stall") /\ Ev.x = "env" /\ Stall(Ev.d) /\ Adv
   \/ IsA("obs.busy_end") /\ TgBusyEnd /\ Adv
   \/ IsA("obs.post_stop") /\ tg.st = "stopping" /\ tg.exitR \notin {"killed", "err"} /\ Same /\ Adv
+  \* post_stop ran to its end: the target was still Stopping and no kill had been sent (a pending kill wins the next poll)
+  \/ IsA("obs.post_stop_end") /\ tg.st = "stopping" /\ tg.sig # "sent" /\ tg.exitR \notin {"killed", "err"} /\ Same /\ Adv
   \/ /\ IsA("obs.sup") /\ tg.st = "dead" /\ Same /\ Adv
      /\ IF Ev.ek = "failed" THEN tg.exitR = "err" ELSE Ev.reason = tg.exitR /\ tg.exitR # "err"
 
